@@ -474,23 +474,21 @@ def part_src(part):
 
 
 def class_sig(node):
+    """structural signature of a (minimised) class: literal parts are 'single', positive escapes and
+    categories 'pos-set', negative ones 'neg-set'; escapes that have their own parsing path keep a name"""
     _, neg, parts, sub = node
     kinds = set()
     for part in parts:
         k = part[0]
         if k == 'c':
-            if part[1] == '-' and not part[2]:
-                kinds.add('hyphen')
-            elif part[2]:
-                kinds.add({'$': 'escaped-dollar', '\\': 'escaped-backslash', '-': 'escaped-hyphen'}.get(part[1], 'escaped-char'))
+            if part[2] and part[1] in '$\\':
+                kinds.add({'$': 'escaped-dollar', '\\': 'escaped-backslash'}[part[1]])
             else:
-                kinds.add('char')
+                kinds.add('single')
         elif k == 'r':
-            kinds.add('range-escaped-start' if part[4] else ('range-escaped-end' if part[3] else 'range'))
-        elif k == 'esc':
-            kinds.add('neg-escape' if part[2] else 'pos-escape')
+            kinds.add('range-escaped-start' if part[4] else ('range-escaped-end' if part[3] else 'single'))
         else:
-            kinds.add('neg-category' if part[2] else 'category')
+            kinds.add('neg-set' if part[2] else 'pos-set')
     s = ('^' if neg else '') + '+'.join(sorted(kinds))
     if sub is not None:
         s += '-[' + class_sig(sub) + ']'
@@ -630,7 +628,7 @@ def diagnose(rx, p, flags, ver, mode, s, want):
     rel = relevant_flags(p, flags, ver, mode, s, want)
     if 'x' in rel:
         if x_whitespace(p, flags, ver, mode, s, want):
-            return 'x-flag/whitespace-not-removed/' + verb
+            return 'x-flag/whitespace-not-removed'
         if rx.source is not None and '#' in re.sub(r'\\.|\[[^\]]*\]', '', rx.source):
             return 'x-flag/hash-treated-as-comment'
     seen = set()
@@ -652,7 +650,7 @@ def diagnose(rx, p, flags, ver, mode, s, want):
                     return 'i-flag/category-escape-in-class' if class_has_category(node) \
                         else 'i-flag/class-algebra-before-case-folding'
                 if '\\-\\' in small.replace('\\\\', ''):
-                    return '%s/class/escape-after-escaped-hyphen' % verb
+                    return 'class/escape-after-escaped-hyphen'
                 sig = class_sig(node) if node is not None else 'unparsed'
                 return '%s/class/%s%s' % (verb, sig, tail)
             kind = atom.kind
@@ -661,12 +659,34 @@ def diagnose(rx, p, flags, ver, mode, s, want):
             return '%s/%s%s' % (verb, kind, tail)
     if want == 'match' and rx.unset_backref_used:
         return 'mismatch/backref-to-unset-group'
+    # no single atom explains it: minimise pattern and subject (disagreement-preserving), then name the structure
+    q, t = p, s
+    budget = 80
+    improved = True
+    while improved and budget > 0:
+        improved = False
+        for cand in _shrink_str(q, 20):
+            budget -= 1
+            if disagrees(cand, rel, ver, mode, t, want):
+                q, improved = cand, True
+                break
+        if not improved and t:
+            for cand in list(_shrink_str(t, 10)) + ['']:
+                budget -= 1
+                if disagrees(q, rel, ver, mode, cand, want):
+                    t, improved = cand, True
+                    break
+    st = model_parse(q, mode, ver, rel)
+    feats = st[1].features if st[0] == 'valid' else rx.features
     feat = 'plain'
     for f in STRUCT_ORDER:
-        if f in rx.features:
+        if f in feats:
             feat = f
             break
-    return '%s/%s/structure/%s%s' % (mode, verb, feat, ('/flags=' + rel) if rel else '')
+    tail = ('/flags=' + rel) if rel else ''
+    if t is not None and t.endswith('\n') and not disagrees(q, rel, ver, mode, t[:-1], want):
+        return '%s/%s/subject-trailing-newline%s' % (mode, verb, tail)
+    return '%s/%s/structure/%s%s' % (mode, verb, feat, tail)
 
 
 def x_reason(p, flags):
@@ -714,7 +734,7 @@ def check_translate(case, out):
             elif 'x' in flags and M.strip_x(p) != p and \
                     eng_compile(M.strip_x(p), flags.replace('x', ''), ver, mode)[0] != 'ok':
                 reason = 'x-flag/whitespace-not-removed'
-            out.fail('C12/invalid-accepted/%s' % reason,
+            out.fail('C12/%s' % (reason if reason.startswith('x-flag/') else 'invalid-accepted/' + reason),
                      {'pattern': p, 'flags': flags, 'xsd_version': ver, 'mode': mode,
                       'expected': 'RegexError (%s)' % st[1], 'got': 'translated to %r' % comp[2][:80]})
         elif comp[0] == 'late':
@@ -818,7 +838,7 @@ def check_functions(case, out):
                 xr = x_reason(p, flags)
                 if xr and fn_call('matches($s,$p,$f)', s, M.strip_x(p), flags.replace('x', ''))[0] == 'ok':
                     xr = None
-                out.fail('C12/invalid-accepted/%s' % (xr or st[1]), dict(ctx, function=name, expected='FORX0002', got='a result'))
+                out.fail('C12/%s' % (xr or 'invalid-accepted/' + st[1]), dict(ctx, function=name, expected='FORX0002', got='a result'))
                 break
             if r[0] == 'err' and r[1] != 'FORX0002':
                 out.fail('C12/functions/invalid-pattern-error-code/%s/%s' % (name, r[1]), dict(ctx, expected='FORX0002'))
@@ -860,15 +880,14 @@ def check_functions(case, out):
         for n in three:
             if results[n][0] == 'ok':
                 xr = x_reason(p, flags)
-                out.fail('C12/' + (xr + '/FORX0003-missing' if xr else
-                                   'functions/FORX0003-missing%s' % ('/backref-to-unset-group' if unset_e else '')),
+                out.fail('C12/' + (xr or ('mismatch/backref-to-unset-group' if unset_e else 'functions/FORX0003-missing')),
                          dict(ctx, function=n, expected='FORX0003 (pattern matches the zero-length string)', got='a result'))
                 break
         out.obs = 'pattern matches the empty string: %s' % forx3
         return
     if empty is False and forx3:
         xr = x_reason(p, flags)
-        out.fail('C12/' + (xr + '/FORX0003-spurious' if xr else 'functions/FORX0003-spurious'),
+        out.fail('C12/' + (xr or 'functions/FORX0003-spurious'),
                  dict(ctx, functions=forx3, expected='a result'))
         return
     if forx3:
@@ -1054,11 +1073,11 @@ SEED_TRANSLATE += [
     ('a{1, 2}', 'x', 'xpath'), ('a b', 'x', 'xpath'), ('\\ d', 'x', 'xpath'), ('\\_', '', 'xpath'), ('\\a', '', 'xsd'),
     ('[\\q]', '', 'xsd'), ('[\\p]', '', 'xsd'), ('\\0', '', 'xpath'), ('[a-[b]c', '', 'xsd'), ('[a-[b]', '', 'xsd'),
     ('\\q', '', 'xsd'), ('\\1(a)', '', 'xpath'), ('(a\\1)', '', 'xpath'), ('\\p{Is}', '', 'xsd'), ('a\\', '', 'xsd'),
-    ('\\2 #', 'x', 'xpath'), ('\\ 3', 'x', 'xpath'),
+    ('#\\2', 'x', 'xpath'), ('\\\t1[_]', 'x', 'xpath'), ('[\\-\\P{L}#]', '', 'xsd'), ('[\n-\\-\\c]', '', 'xsd'),
 ]
 SEED_FUNCTIONS = [
     ('1ab2ab', '(a)(b)', ''), ('1ab2', '(a)b', ''), ('aa', '^a', ''), ('abc', '(a(b)?c)', ''), ('abcd', '((a)(b))((c)(d))', ''),
-    ('1<2', '1', ''), ('a&b', 'b', ''), ('a\rb', 'b', ''), ('a\\b', '\\', 'q'), ('a b', 'a b', 'qx'), ('a.b', '.', 'q'),
+    ('1<2', '1', ''), ('a&b', 'b', ''), ('a\rb', 'b', ''), ('a\\b', '\\', 'q'), (' a', ' a', 'qx'), ('a.b', '.', 'q'),
     ('\\$x', 'x', ''), ('b', '(a)|b\\1', ''), ('ab', '(a)|\\1', ''), ('abcd', '(ab)|(a)', ''), ('a', '#', 'x'), ('abc', 'b*', ''),
     ('Mum', '([md])[aeiou]\\1', 'i'), ('abracadabra', 'bra', ''), ('abracadabra', 'a.*?a', ''), ('', 'a', ''),
     ('The cat sat', '\\s+', ''), ('a1b22c', '\\d+', ''), ('+', '(()[\\C])', ''),
